@@ -386,7 +386,13 @@ fn gen_case(rng: &mut Rng, c14: bool) -> WriterCase {
         3 + rng.small(80)
     };
     let mut ops = vec![];
+    // one shipped-capacity run in 30 contains multi-megabyte writes
+    let giant = cap.is_none() && !cfg!(miri) && rng.chance(1, 30);
     let len = |rng: &mut Rng| -> usize {
+        if giant && rng.chance(1, 8) {
+            // a multi-megabyte blob in one call
+            return rng.range(1 << 20, 5 << 20);
+        }
         match rng.below(10) {
             0 => 0,
             1..=3 => rng.small(8),
